@@ -60,7 +60,11 @@ type Node struct {
 
 func init() {
 	if os.Getenv("VERIF_PDLOG") == "" {
-		log.ReplaceGlobals(zap.NewNop(), &log.ZapProperties{Level: zap.NewAtomicLevelAt(zapcore.FatalLevel)})
+		// Production PD logs at info level, and formatting some log fields has side effects (Operator.String()
+		// calls CheckSuccess / CheckTimeout): keep the fields evaluated exactly as in production, but discard the output.
+		lvl := zap.NewAtomicLevelAt(zapcore.InfoLevel)
+		core := zapcore.NewCore(zapcore.NewJSONEncoder(zap.NewProductionEncoderConfig()), zapcore.AddSync(io.Discard), lvl)
+		log.ReplaceGlobals(zap.New(core), &log.ZapProperties{Core: core, Level: lvl})
 	}
 }
 
